@@ -375,6 +375,7 @@ static const struct {
     {"sproto_out_buffer_append error", "OUTAPPERR"},
     {"ssrpc_in_queue_push error", "INQERR"},
     {"iterate fail", "ITERFAIL"},
+    {"DATA ERROR!", "DATAERR"},
     {"WATCHDOG TIMEOUT", "WDT"},
     {"Activity timeout", "ACTTIMEOUT"},
     {"Protocol version error", "VERERR"},
@@ -384,7 +385,7 @@ int os_printf_plus(const char *format, ...) {
   va_start(ap, format);
   vsnprintf(sdk_last_log, sizeof(sdk_last_log), format, ap);
   va_end(ap);
-  if (sdk_log_echo == 2) {
+  if (sdk_log_echo == 2 || getenv("VERIF_LOG")) {
     fprintf(stderr, "log: %s", sdk_last_log);
   }
   if (sdk_log_echo)
